@@ -108,7 +108,6 @@ def objects(mod, sc, emit):
     for h in sc["histories"]:
         emit({"at": ["h", h["id"]]})
         P.reset()
-        gc.collect()
         base = [P.made(), P.died()]
         w = {}
         obs = []
@@ -137,7 +136,6 @@ def objects(mod, sc, emit):
                     w[a[0]].peek()
                 elif op == "DropWrapper":
                     del w[a[0]]
-                    gc.collect()
             except BaseException as e:          # noqa
                 exc = type(e).__name__
             P.take_log()
